@@ -130,6 +130,14 @@ fn gen_ctor(rng: &mut Rng, len: usize) -> Ctor {
         }
         5..=6 => {
             let a = (rng.f() - 0.5) * 10f64.powf(rng.f() * 8.0 - 4.0);
+            if rng.chance(0.2) {
+                // a width of only a few ulps of `start`: many tied edges
+                let k = 1 + rng.below(300);
+                let b = f64::from_bits(if a >= 0.0 { a.to_bits() + k } else { a.to_bits() - k });
+                if b > a {
+                    return Ctor::ConstWidth(a.to_bits(), b.to_bits());
+                }
+            }
             let w = 10f64.powf(rng.f() * 8.0 - 4.0);
             Ctor::ConstWidth(a.to_bits(), (a + w).to_bits())
         }
@@ -225,6 +233,14 @@ impl HScenario {
             if let Ctor::Ranges(b) = &ctors[0] {
                 let mut e: Vec<f64> = b.iter().map(|x| f64::from_bits(*x)).collect();
                 let i = rng.usize(e.len());
+                let zeros: Vec<usize> = (0..e.len()).filter(|&j| e[j] == 0.0).collect();
+                if !zeros.is_empty() && rng.chance(0.5) {
+                    // numerically identical edges that differ only in the sign of a zero
+                    let j = zeros[rng.usize(zeros.len())];
+                    e[j] = -e[j];
+                    ctors[1] = Ctor::Ranges(e.iter().map(|x| x.to_bits()).collect());
+                    e[j] = -e[j];
+                }
                 let cand = if rng.chance(0.5) { next_up(e[i]) } else { next_down(e[i]) };
                 let ok = (i == 0 || e[i - 1] <= cand) && (i + 1 >= e.len() || cand <= e[i + 1]);
                 if ok {
@@ -519,7 +535,14 @@ impl HScenario {
                     if *dst >= k || *src >= k {
                         continue;
                     }
-                    hs[*dst] = hs[*src].boxed_clone();
+                    if (oi + *dst + *src) % 2 == 0 {
+                        hs[*dst] = hs[*src].boxed_clone();
+                    } else if dst != src {
+                        // Clone::clone_from into an existing histogram (possibly over other edges)
+                        let src_h = hs[*src].boxed_clone();
+                        hs[*dst].clone_from_other(src_h.as_ref());
+                        st.bump("probe.clone_from");
+                    }
                     ms[*dst] = ms[*src].clone();
                     node_ctor[*dst] = node_ctor[*src];
                 }
